@@ -8,6 +8,7 @@ CONSTANTS
   Rcvs <- MCRcvs
   NSlots = 8
   Leaky = FALSE
+  Redesign = FALSE
 INIT Init
 NEXT Next
 INVARIANT TypeOK
